@@ -26,7 +26,10 @@ RULE = ('The same generated scenario is executed three ways - core API (StreamFr
         'back-pressure-aware handler observable of 1500 elements with credit 700..2^31-1 whose result is disposed after 1-6 '
         'elements or 2-8 ticks under prompt delivery must not be drained to its end (the CANCEL has to get a chance to '
         'stop it). Plus: a fire-and-forget whose delegate suspends 0-4 loop iterations, followed by a request-response (same '
-        'read or the next tick): the delegate sees them in the order a core handler does. Non-trivial = >= 3 '
+        'read or the next tick): the delegate sees them in the order a core handler does. Plus: one handler factory object '
+        'serving 2-3 consecutive connections of a client (as a listening application does): every connection gets a '
+        'delegate of its own, which sees that connection\'s on_setup once and its fire-and-forget / metadata-push / '
+        'request-response calls, as with a core handler factory. Non-trivial = >= 3 '
         'elements with request limit < element count, or an error / dispose position strictly inside the sequence; '
         'distinct = scenario hash.')
 ASSUMPTIONS = ['Rx 3 (rx) and ReactiveX 4 (reactivex) are importable in /venv', 'a plain observable may be buffered by the adapter']
@@ -218,35 +221,43 @@ def build_rx(sc, version):
         world = scn.world
         Base = M['Base']
 
+        instances = []
+
         class Delegate(Base):
+            def __init__(self, *a, **k):
+                super().__init__(*a, **k)
+                self.inst = len(instances)  # which delegate object this is, in order of creation
+                instances.append(self)
+                world.ev('s', 'delegate_created', inst=self.inst)
+
             async def on_setup(self, data_encoding, metadata_encoding, payload):
                 d, m = A.pl(payload)
                 world.ev('s', 'delegate', what='on_setup', data_encoding=bytes(data_encoding),
-                         metadata_encoding=bytes(metadata_encoding), data=d, metadata=m)
+                         metadata_encoding=bytes(metadata_encoding), data=d, metadata=m, inst=self.inst)
                 if sc.get('reject'):
                     raise A.AppError('setup refused by the delegate')
 
             async def on_metadata_push(self, metadata):
                 d, m = A.pl(metadata)
-                world.ev('s', 'delegate', what='on_metadata_push', data=d, metadata=m)
+                world.ev('s', 'delegate', what='on_metadata_push', data=d, metadata=m, inst=self.inst)
 
             async def request_fire_and_forget(self, payload):
                 d, m = A.pl(payload)
-                world.ev('s', 'delegate', what='request_fire_and_forget', data=d, metadata=m)
+                world.ev('s', 'delegate', what='request_fire_and_forget', data=d, metadata=m, inst=self.inst)
 
             async def request_response(self, payload):
                 d, m = A.pl(payload)
-                world.ev('s', 'delegate', what='request_response', data=d, metadata=m)
+                world.ev('s', 'delegate', what='request_response', data=d, metadata=m, inst=self.inst)
                 return observable(M, world, 's', 'resp', sc['n'], sc['err_at'], A.TAG_RESP, lens, False)
 
             async def request_stream(self, payload):
                 d, m = A.pl(payload)
-                world.ev('s', 'delegate', what='request_stream', data=d, metadata=m)
+                world.ev('s', 'delegate', what='request_stream', data=d, metadata=m, inst=self.inst)
                 return observable(M, world, 's', 'resp', sc['n'], sc['err_at'], A.TAG_RESP, lens, sc['bp'])
 
             async def request_channel(self, payload):
                 d, m = A.pl(payload)
-                world.ev('s', 'delegate', what='request_channel', data=d, metadata=m)
+                world.ev('s', 'delegate', what='request_channel', data=d, metadata=m, inst=self.inst)
                 rec = Recorder(world, 's', 'responder_in')
                 return M['Channel'](observable(M, world, 's', 'resp', sc['n'], sc['err_at'], A.TAG_RESP, lens, sc['bp']),
                                     rx_observer(M, rec), sc.get('resp_limit', MAXN))
@@ -678,6 +689,78 @@ VARIANTS = ('core', 'rx3', 'rx4', 'core/rx3', 'core/rx4', 'rx3/core', 'rx4/core'
 info = {}
 
 
+# ---- several connections served through one handler factory object: each connection gets a delegate of its own
+
+@st.composite
+def multi_cases(draw):
+    return {'multi': True, 'version': draw(st.sampled_from([3, 4])), 'msg': draw(st.booleans()),
+            'conns': [draw(st.lists(st.sampled_from(['fnf', 'mp', 'rr']), min_size=1, max_size=3))
+                      for _ in range(draw(st.integers(2, 3)))]}
+
+
+def multi_prop(case):
+    sc = {'model': 'rr', 'n': 1, 'limit': MAXN, 'err_at': None, 'dispose_after': None, 'dispose_ticks': None, 'bp': False,
+          'msg': case['msg'], 'rbuf': 1024, 'frag': None, 'lens': [5, 0], 'flag_end': False}
+    sf, _go, _disp = build_rx(sc, case['version'])
+    inter, ops = [], [['tick', 3], ['settle']]
+    for i, kinds_ in enumerate(case['conns']):
+        if i:
+            ops += [['reconnect'], ['tick', 6], ['settle']]
+        ops.append(['mark', 'connection:%d' % i])
+        for k in kinds_:
+            spec = {'k': k, 'side': 'c', 'req': [6, 2] if k != 'mp' else [0, 2]}
+            if k == 'rr':
+                spec['resp'] = {'mode': 'now', 'p': [5, 0]}
+            inter.append(spec)
+            ops += [['start'], ['tick', 4], ['settle']]
+    ops.append(['mark', 'connection:%d' % len(case['conns'])])
+    prog = {'cfg': {'msg': case['msg'], 'frag': [None, None], 'rbuf': [1024, 1024], 'transports': len(case['conns']),
+                    'setup_payload': list(el(0, A.TAG_REQ, 9, [4, 3])), 'data_encoding': b'application/x-c20',
+                    'metadata_encoding': b'message/x.c20'},
+            'inter': inter, 'ops': ops, 'heal': False, '_handler_factory': {'s': sf}, '_actions': {}}
+    tr = run_program(prog)
+    out = []
+    variant = 'rx%d' % case['version']
+
+    def bad(kind, sig, **kw):
+        out.append(viol(kind, 'C20:%s:%s' % (variant, sig), variant=variant, **kw))
+
+    marks = {e['name']: e['seq'] for e in tr.world.log if e['ev'] == 'mark'}
+    created = [e for e in tr.world.log if e['ev'] == 'delegate_created']
+    if len(created) != len(case['conns']):
+        bad('delegates_per_connection_wrong', 'multi:delegate_count', delegates=len(created), connections=len(case['conns']))
+    want_what = {'fnf': 'request_fire_and_forget', 'mp': 'on_metadata_push', 'rr': 'request_response'}
+    seen_setup = {}
+    for e in tr.world.log:
+        if e['ev'] == 'delegate' and e['what'] == 'on_setup':
+            seen_setup.setdefault(e['inst'], 0)
+            seen_setup[e['inst']] += 1
+    if sorted(seen_setup.items()) != [(i, 1) for i in range(len(case['conns']))]:
+        bad('delegate_on_setup_wrong', 'multi:on_setup', per_delegate=sorted(seen_setup.items()), connections=len(case['conns']))
+    for i, kinds_ in enumerate(case['conns']):
+        lo, hi = marks['connection:%d' % i], marks['connection:%d' % (i + 1)]
+        calls = [(e['what'], e['inst']) for e in tr.world.log if e['ev'] == 'delegate' and lo < e['seq'] < hi
+                 and e['what'] != 'on_setup']
+        want = [(want_what[k], i) for k in kinds_]
+        if calls != want:
+            bad('request_reached_another_connections_delegate' if [c[0] for c in calls] == [w[0] for w in want]
+                else 'delegate_not_reached', 'multi:calls', connection=i, got=calls, want=want)
+            break
+    for err in tr.loop_errors:
+        bad('unhandled_exception', 'loop_error:%s' % err.get('type'), **{k: v for k, v in err.items() if k != 'type'})
+    info['nt'] = True
+    info['classes'] = ['part=multi_connection', 'connections=%d' % len(case['conns']), 'version=%d' % case['version']]
+    return out
+
+
+def multi_shard(tier, seed, n):
+    common.use_repo()
+    stats = common.Stats()
+    known = common.Known(PID)
+    common.hyp_search(stats, known, multi_cases(), multi_prop, n, seed, classify=classify, shrink=True)
+    return stats
+
+
 def prop(sc):
     vs = []
     for variant in VARIANTS:
@@ -744,6 +827,8 @@ def run(tier, seed):
                                                             for s in common.shard_seeds(seed, common.NPROC)]
     nlong = 32 if tier == 'quick' else 640
     jobs += [('long_shard', dict(tier=tier, seed=s + 4242, n=nlong // 8)) for s in common.shard_seeds(seed, 8)]
+    nmulti = 96 if tier == 'quick' else 1600
+    jobs += [('multi_shard', dict(tier=tier, seed=s + 777, n=nmulti // 4)) for s in common.shard_seeds(seed, 4)]
     stats = common.run_shards_multi(__name__, jobs)
     stats.extra['executions_per_scenario'] = len(VARIANTS)
     stats.extra['variants'] = list(VARIANTS)
@@ -757,4 +842,6 @@ def replay(path):
         return common.report_replay(PID, path, long_prop(case))
     if case.get('fnf_order'):
         return common.report_replay(PID, path, fnf_order_prop(case))
+    if case.get('multi'):
+        return common.report_replay(PID, path, multi_prop(case))
     return common.report_replay(PID, path, prop(case))
